@@ -275,6 +275,39 @@ theorem init_der_nominal_free (b b' : C05.Blk) (h0 : Option C05.Hist) (hsame : S
   · simp only [hpos, if_false]
     field_simp
 
+
+/-! ## the seed vector -/
+
+/-- **`x0` is the user's seed over the nominal, per named entry.**  The block written for one
+    (member, variable) by `x0[inds] = seed; x0[inds] /= nominal` holds at position `c · n + i`
+    (component-major) the seed of component `c` at the variable's `i`-th stamp — scalar replicated,
+    a Timeseries interpolated with 0 outside (column `c` of a 2-D series) — divided by the nominal
+    of component `c`. -/
+theorem seed_is_users_seed (b : C05.Blk) (seed : C05.Side) (vs : List XVal) (hwf : C05.WF b)
+    (h : C05.blockWrite b seed (XVal.fin 0) = some (some vs)) (c i : Nat) (hc : c < b.size) (hi : i < b.n) :
+    vs[c * b.n + i]? = (C05.sideAt b seed (XVal.fin 0) c i).map fun x => C05.xdivPos x (b.nom.at c) :=
+  C05.blockWrite_entry b seed (XVal.fin 0) vs hwf h c i hc hi
+
+/-- `nominal · x0` is nominal free -/
+theorem seed_nominal_free (b b' : C05.Blk) (hsame : SameButNom b b') (seed : C05.Side) (vs vs' : List XVal)
+    (hwf : C05.WF b) (h : C05.blockWrite b seed (XVal.fin 0) = some (some vs))
+    (h' : C05.blockWrite b' seed (XVal.fin 0) = some (some vs')) (c i : Nat) (hc : c < b.size) (hi : i < b.n)
+    (hν : b.nom.at c ≠ 0) (hν' : b'.nom.at c ≠ 0) :
+    (vs[c * b.n + i]?).map (fun x => C05.xmulPos x (b.nom.at c))
+      = (vs'[c * b'.n + i]?).map (fun x => C05.xmulPos x (b'.nom.at c)) := by
+  have hwf' : C05.WF b' := by
+    intro hs
+    have : b.scalarT = true := by rw [hsame.2.2.1]; exact hs
+    have hn := hwf this
+    simpa [C05.Blk.n, hsame.2.1] using hn
+  have hc' : c < b'.size := by rw [← hsame.1]; exact hc
+  have hi' : i < b'.n := by simpa [C05.Blk.n, hsame.2.1] using hi
+  rw [seed_is_users_seed b seed vs hwf h c i hc hi, seed_is_users_seed b' seed vs' hwf' h' c i hc' hi',
+    sideAt_sameButNom b b' hsame]
+  cases C05.sideAt b' seed (XVal.fin 0) c i with
+  | none => rfl
+  | some x => simp [xmul_xdiv x _ hν, xmul_xdiv x _ hν']
+
 /-! ## non-vacuity -/
 
 /-- a small affine problem: two entries, one equality row `z0 + 2 z1 = 3`, box `[0, 10] × (-inf, 4]` -/
